@@ -25,9 +25,11 @@ LEVEL = "fault_enumeration"
 
 TIERS = {
     "quick": {"streams": 64, "runs": 24, "pairs": 8, "budget_s": None,
-              "codegen_every": 0},
+              "codegen_every": 0, "proc_groups": 3, "proc_progs": 150,
+              "proc_faults": 5},
     "thorough": {"streams": 4000, "runs": 12, "pairs": 30, "budget_s": 15 * 60,
-                 "codegen_every": 0},
+                 "codegen_every": 0, "proc_groups": 100, "proc_progs": 400,
+                 "proc_faults": 8},
 }
 
 RULE = ("one evaluation = one simulated multi-rank run of "
@@ -58,61 +60,80 @@ ASSUMPTIONS = [
 EXPECTED_PROBES = ()
 
 
-def _family():
-    from pytools.graph import CycleError
-    from pytato.distributed.verify import (
-        DistributedPartitionVerificationError, PartitionInducedCycleError)
-    return (DistributedPartitionVerificationError, NotImplementedError,
-            CycleError, PartitionInducedCycleError)
+FAMILY_NAMES = {"DistributedPartitionVerificationError", "NotImplementedError",
+                "CycleError", "PartitionInducedCycleError"}
+CRASH_NAMES = {"KeyError", "IndexError", "AttributeError", "TypeError",
+               "NameError", "RecursionError", "ZeroDivisionError",
+               "StopIteration", "SimProtocolError"}
+
+
+class ExcInfo:
+    """an exception raised by a rank, possibly in another interpreter: known by
+    the names of its classes"""
+
+    def __init__(self, names, text, tname):
+        self.names = set(names)
+        self.text = text
+        self.tname = tname
+
+    @staticmethod
+    def of(e):
+        if isinstance(e, ExcInfo):
+            return e
+        if isinstance(e, dict):
+            return ExcInfo(e["mro"], f"{e['type']}({e['msg']!r})", e["type"])
+        return ExcInfo([c.__name__ for c in type(e).__mro__], f"{e!r}"[:300],
+                       type(e).__name__)
 
 
 # Exception types that mean "the code fell over" rather than "the code told
 # the user what is wrong".  Anything else (in particular new error classes a
 # refactor may introduce) counts as a diagnostic.
-def _is_crash(e):
-    from pytato.distributed.verify import PartitionInducedCycleError
-    if isinstance(e, _family()):
+def _is_crash(x):
+    if x.names & FAMILY_NAMES:
         return False
-    if isinstance(e, AssertionError):
-        return not isinstance(e, PartitionInducedCycleError)
-    return isinstance(e, (KeyError, IndexError, AttributeError, TypeError,
-                          NameError, RecursionError, ZeroDivisionError,
-                          StopIteration, simmpi.SimProtocolError))
+    if "AssertionError" in x.names:
+        return True
+    return bool(x.names & CRASH_NAMES)
 
 
 def evaluate(case, res):
-    """C10 oracle.  case['model'] is filled in by run_faulted (from res)."""
+    """C10 oracle on a thread-actor run"""
     model = commmodel.analyse(res["dags"])
     case["_model"] = model
-    fam = _family()
-    status = res["status"]
+    return evaluate_status(model, res["status"], res["outcome"])
+
+
+def evaluate_status(model, status, outcome):
+    """status: per rank ("returned",) / ("raised", exception or ExcInfo or
+    dict) / ("blocked", ...)"""
     n = len(status)
     v = []
-    raised = [(r, st[1]) for r, st in enumerate(status) if st[0] == "raised"]
+    raised = [(r, ExcInfo.of(st[1])) for r, st in enumerate(status)
+              if st[0] == "raised"]
     returned = [r for r, st in enumerate(status) if st[0] == "returned"]
     if model["well_formed"]:
         # a correct computation is never rejected
-        for r, e in raised:
-            v.append({"class": f"valid-program-rejected:{type(e).__name__}",
-                      "rank": r, "detail": f"{e!r}"[:300]})
+        for r, x in raised:
+            v.append({"class": f"valid-program-rejected:{x.tname}",
+                      "rank": r, "detail": x.text})
         if not raised and len(returned) != n:
-            v.append({"class": "valid-program-" + res["outcome"], "rank": None,
+            v.append({"class": "valid-program-" + outcome, "rank": None,
                       "detail": str([st[0] for st in status])})
         return v
     defects = model["defects"]
-    for r, e in raised:
-        if isinstance(e, simmpi.SimLivelock):
-            v.append({"class": "livelock", "rank": r, "detail": f"{e!r}"[:300]})
-        elif _is_crash(e):
-            v.append({"class": f"crashed-instead-of-diagnosing:{type(e).__name__}",
-                      "rank": r,
-                      "detail": f"{e!r}"[:300] + f" model: {defects[:3]}"})
+    for r, x in raised:
+        if "SimLivelock" in x.names:
+            v.append({"class": "livelock", "rank": r, "detail": x.text})
+        elif _is_crash(x):
+            v.append({"class": f"crashed-instead-of-diagnosing:{x.tname}",
+                      "rank": r, "detail": x.text + f" model: {defects[:3]}"})
     if len(returned) == n:
         v.append({"class": "ill-formed-program-partitioned", "rank": None,
                   "detail": f"all ranks returned a partition; model: {defects[:4]}"})
         return v
-    fam_raisers = {r for r, e in raised if not _is_crash(e)
-                   and not isinstance(e, simmpi.SimLivelock)}
+    fam_raisers = {r for r, x in raised if not _is_crash(x)
+                   and "SimLivelock" not in x.names}
     affected = set()
     for _cls, ranks, _d in defects:
         affected |= set(ranks)
@@ -126,8 +147,8 @@ def evaluate(case, res):
         v.append({"class": "cycle-not-raised-on-every-rank", "rank": None,
                   "detail": f"raised on {sorted(fam_raisers)} of {n}; status "
                             f"{[st[0] for st in status]}"})
-    if res["outcome"] in ("deadlock", "step-limit"):
-        v.append({"class": res["outcome"], "rank": None,
+    if outcome in ("deadlock", "step-limit"):
+        v.append({"class": outcome, "rank": None,
                   "detail": str([st[0] for st in status])})
     return v
 
@@ -163,7 +184,96 @@ def fault_sets(recipe, rng, npairs):
     return out
 
 
+# {{{ process actors: one interpreter per rank
+
+def _proc_case(ws, recipe, faults, rng):
+    from simkit import procranks
+    n = recipe["nranks"]
+    state, results, _stats = procranks.run(ws, recipe, rng, faults=faults,
+                                           stop_after="verify")
+    status = []
+    for r in range(n):
+        if state[r] == "returned":
+            status.append(("returned",))
+        elif state[r] == "raised":
+            status.append(("raised", results[r]["raised"]))
+        else:
+            status.append(("blocked", state[r]))
+    dags = [mrecipe.build_rank(recipe, r, faults=faults) for r in range(n)]
+    model = commmodel.analyse(dags)
+    outcome = "ok" if all(s[0] != "blocked" for s in status) else "blocked"
+    return evaluate_status(model, status, outcome), model, status
+
+
+def run_proc_group(task):
+    from simkit import fleet
+    seed, (_kind, group), nprogs, nfaults = task
+    acc = e1.Accum()
+    t0 = time.monotonic()
+    rng = random.Random(f"{seed}:{PROP}:proc:{group}")
+    cfgs = fleet.draw_configs(rng, 4)
+    ws = [fleet.Worker(c["hashseed"], c["prelude"], f"p{group}.{i}")
+          for i, c in enumerate(cfgs)]
+    acc.extra["process_actor_interpreters"] += len(ws)
+    try:
+        for i in range(nprogs):
+            prng = random.Random(f"{seed}:{PROP}:proc:{group}:{i}")
+            recipe = mrecipe.gen_recipe(prng)
+            _live, livec = mrecipe.live_sets(recipe)
+            if recipe["nranks"] < 2 or not livec:
+                continue
+            sets = fault_sets(recipe, prng, 0)
+            picks = [sets[0]] + prng.sample(sets[1:], min(nfaults, len(sets) - 1))
+            for fi, (rc, faults) in enumerate(picks):
+                v, model, status = _proc_case(
+                    ws, rc, faults, random.Random(f"{seed}:{group}:{i}:{fi}"))
+                acc.runs += 1
+                acc.extra["process_actor_runs"] += 1
+                key = hashlib.sha256(("proc" + e1.recipe_digest(rc)
+                                      + json.dumps(faults, sort_keys=True)
+                                      ).encode()).digest()[:8]
+                acc.pairs.add(key)
+                if not model["well_formed"]:
+                    acc.nontrivial_pairs.add(key)
+                if v:
+                    acc.violations.append({
+                        "stream": f"proc{group}", "run": f"{i}.{fi}",
+                        "case": {"recipe": rc, "cfg": {}, "iterations": 1,
+                                 "faults": faults, "mode": "process",
+                                 "configs": cfgs, "stop_after": "verify"},
+                        "decisions": [], "classes": e1.classes_of(v),
+                        "details": v[:8]})
+            if len(acc.violations) >= 2:
+                break
+    finally:
+        for w in ws:
+            w.close()
+    acc.wall = time.monotonic() - t0
+    return acc
+
+
+def minimise_process(v, target, budget_s=60.0):
+    return v["case"], []
+
+
+def replay_process(doc):
+    from simkit import fleet
+    ws = [fleet.Worker(c["hashseed"], c["prelude"], f"rp{i}")
+          for i, c in enumerate(doc["configs"])]
+    try:
+        v, _m, _s = _proc_case(ws, doc["recipe"], doc.get("faults", []),
+                               random.Random("replay"))
+    finally:
+        for w in ws:
+            w.close()
+    return v
+
+# }}}
+
+
 def run_stream(task):
+    if isinstance(task[1], tuple):
+        return run_proc_group(task)
     seed, stream, nprogs, npairs = task
     known = driver.load_known_findings(PROP)
     acc = e1.Accum()
@@ -239,7 +349,12 @@ def run_stream(task):
 
 
 def make_tasks(seed, conf):
-    return [(seed, k, conf["runs"], conf["pairs"]) for k in range(conf["streams"])]
+    tasks = [(seed, k, conf["runs"], conf["pairs"])
+             for k in range(conf["streams"])]
+    for g in range(conf.get("proc_groups", 0)):
+        tasks.insert(min(len(tasks), 4 * g),
+                     (seed, ("proc", g), conf["proc_progs"], conf["proc_faults"]))
+    return tasks
 
 
 def coverage_extra(total):
@@ -260,6 +375,9 @@ def coverage_extra(total):
 def replay(path):
     with open(path) as f:
         doc = json.load(f)
+    if doc.get("mode") == "process":
+        v = replay_process(doc)
+        return doc, e1.classes_of(v), v
     case = e1.case_from_doc(doc)
     case["stop_after"] = "verify"
     res, _trace = e1.run_with(case, doc["schedule"])
